@@ -194,6 +194,43 @@ Theorem C05_final_sample : forall pw gpow x y n alpha beta a, PwOk pw -> GpowPos
 Proof. exact final_sample. Qed.
 Print Assumptions C05_final_sample.
 
+(** ---- window computations regenerated from rfa.py (Gen/Kernels.v) = the model's window functions ---- *)
+From TW Require Import Model.RfaSpec Gen.Kernels Proofs.WindowsLink.
+(** `a = alpha * n` (or the explicit a), `int(a)`, `if a < 2: a = 2` — as generated from LinearFixedRFA.__init__ *)
+Definition gen_window_a (n : nat) (alpha : Qc) (a : option Qc) : Z :=
+  let a0 := match a with Some v => VS v | None => linfixed_init__a_from_alpha (VS alpha) (VS (Qc_of_nat n)) end in
+  let sa := linfixed_init__a a0 in
+  let sa := if linfixed_init__clamp_test sa then linfixed_init__clamp_value else sa in
+  Qc_trunc (as_scalar sa).
+
+Theorem C05_generated_window_a : forall n alpha a, gen_window_a n alpha a = window_a n alpha a.
+Proof. exact gen_window_a_ok. Qed.
+Print Assumptions C05_generated_window_a.
+
+Theorem C05_generated_half_window : forall A, (0 <= A)%Z ->
+  linfixed_init__a_l (VS (Qc_of_Z A)) = VS (Qc_of_Z (half_window A)) /\
+  linfixed_init__a_r (VS (Qc_of_Z (half_window A))) = VS (Qc_of_Z (half_window A)).
+Proof. exact gen_half_window_ok. Qed.
+Print Assumptions C05_generated_half_window.
+
+Theorem C05_generated_linear_part : forall beta al,
+  expfixed_init__b (VS beta) (VS (Qc_of_Z al)) = VS (Qc_of_Z (lin_part beta al)).
+Proof. exact gen_lin_part_ok. Qed.
+Print Assumptions C05_generated_linear_part.
+
+(** the four window strategies compute the window in the same way *)
+Theorem C05_generated_constructors_agree :
+  (expfixed_init__a_from_alpha = linfixed_init__a_from_alpha /\ linadapt_init__a_from_alpha = linfixed_init__a_from_alpha /\
+   expadapt_init__a_from_alpha = linfixed_init__a_from_alpha) /\
+  (expfixed_init__a = linfixed_init__a /\ linadapt_init__a = linfixed_init__a /\ expadapt_init__a = linfixed_init__a) /\
+  (expfixed_init__clamp_test = linfixed_init__clamp_test /\ linadapt_init__clamp_test = linfixed_init__clamp_test /\
+   expadapt_init__clamp_test = linfixed_init__clamp_test) /\
+  (expfixed_init__clamp_value = linfixed_init__clamp_value /\ linadapt_init__clamp_value = linfixed_init__clamp_value /\
+   expadapt_init__clamp_value = linfixed_init__clamp_value) /\
+  (expfixed_init__a_l = linfixed_init__a_l /\ expfixed_init__a_r = linfixed_init__a_r).
+Proof. exact gen_constructors_agree. Qed.
+Print Assumptions C05_generated_constructors_agree.
+
 Example C05_example :
   let x := [qz 0; qz 1; qz 3; qz 4] in let y := [qz 2; qz 6; qz 1; qz 3] in
   list_eqb Qc_eqb (snd (rfa_exp_fixed (pw_int 2) x y 8 1 Qc_half None)) (cf_exp_fixed (pw_int 2) x y 8 4 2) &&
